@@ -149,6 +149,9 @@ pub fn gen_text(rng: &mut Rng, cfg: &GenCfg) -> String {
 
 pub fn gen_value(rng: &mut Rng, depth: usize) -> MValue {
     let pal = value_palette();
+    if rng.chance(1, 16) {
+        return MValue::Float(float_bits(rng));
+    }
     if depth >= 3 || rng.chance(3, 4) {
         let mut v = pal[rng.below(pal.len())].clone();
         if let MValue::Int(_) = v {
@@ -432,7 +435,11 @@ fn gen_ts(rng: &mut Rng) -> MTimestamp {
     if rng.chance(2, 3) {
         MTimestamp::Whole(*rng.pick(TIMESTAMPS_WHOLE))
     } else {
-        MTimestamp::Frac(rng.pick(TIMESTAMPS_FRAC).to_bits())
+        MTimestamp::Frac(if rng.bool() {
+            float_bits(rng)
+        } else {
+            rng.pick(TIMESTAMPS_FRAC).to_bits()
+        })
     }
 }
 
